@@ -14,8 +14,10 @@ import (
 // c13ConditionSetChanges: the set of conditions of a running rule changes (the manager restarts the rule client
 // for that). What everybody else can see - the rule's active point in the store, the action's target - must follow
 // "active exactly when all conditions hold" with the next batch:
-//   (a) an active rule gets one more condition that does not hold  -> inactive, the inactive action runs
-//   (b) an inactive rule loses the one condition that does not hold -> active, the action runs
+//
+//	(a) an active rule gets one more condition that does not hold  -> inactive, the inactive action runs
+//	(b) an inactive rule loses the one condition that does not hold -> active, the action runs
+//
 // Returns "" or what went wrong.
 func c13ConditionSetChanges(c *vlib.Ctx, variant int) string {
 	in, err := vlib.StartInstance(vlib.InstCfg{ID: fmt.Sprintf("c13-cs-%d", variant)})
